@@ -160,6 +160,24 @@ CHECKS = {
 
 PENDING = {}
 
+EXTRA = {
+    "C01": " Answers are also read through engine.get_value/to_python like a consumer. Further families: predicates of 3-4 clauses whose heads reuse variable names in different positions and nestings, every .prolog file of the repository (read with the repository's own parser) incl. the README query, programs using the grammar's operator syntax, and a 'decorated' rendering (comments, directives, tabs, CRLF) that must not change any answer.",
+    "C02": " The vocabulary includes the zero-argument compound f(); after the three runs of each start state every variable is unified with a new atom to detect state left behind by an undone unification (path compression, caches); get_value is read at every yield.",
+    "C03": " Also: every raise point of the projection function of evaluate_bounded, validated against spec/EvalBounded.tla.",
+    "C04": " One-engine scenarios include non-ground dynamic facts used by two suspended queries at once; a free-running two-thread stress run over facts with repeated variables compares each thread with the prediction for its engine alone.",
+    "C05": " A further family of seeded random bodies of 7-15 nodes over generators and tests on SHARED variables (so that a condition's outcome differs between entries of a construct) is checked against the machine; spec/Codegen.tla's intermediate code is compared with the real compile_body's on every enumerated single-clause instance (drift report in the evidence).",
+    "C06": " A further family of seeded random bodies of 7-15 nodes over generators and tests on SHARED variables (nested if-then-else/negation inside conditions, re-entered by generator goals) is checked against the machine; Codegen drift report as in C05.",
+    "C07": " Also several database operations inside one clause body between two answers of an enumeration (the C14 body family).",
+    "C09": " Templates with variables only below the top level, goals whose clause ends in a cut (yield True), goals defined by rules.",
+    "C11": " Also: head names with trailing/leading line breaks and other separators; constructs that emit little or no code followed (and preceded) by clauses at the edge of Python's nesting limit.",
+    "C12": " Also: the same hostile texts compiled with every debug option on (comments + code, as yldpc -d writes them).",
+    "C14": " TLC also checks the temporal property Termination under weak fairness and NeverOutOfFuel on the body family (the update loops terminate in the specification itself).",
+    "C16": " Also terms containing two literals whose printed forms coincide ('f(a)' next to f(a), atom x1 next to `_`, 'X_' next to variable X).",
+    "C17": " Also nested use: a projection function that itself calls evaluate_bounded on the same engine (inner and outer trace validated).",
+    "C18": " The corpus contains compilations that raise at different stages (syntax, visitor, expression generation, generator limits) so that later programs are compiled after failed ones.",
+    "C20": " Exceptions of ordinary types (TypeError, ValueError, KeyError, RuntimeError) raised inside the predicate body must reach the consumer as the same object.",
+}
+
 
 def main():
     props = [json.loads(l) for l in open(os.path.join(VERIF, "properties.jsonl"))]
@@ -176,7 +194,7 @@ def main():
                 "evidence_file": "evidence/%s.json" % pid,
                 "replay_cmd_template": "bin/check %s --replay {path}" % pid,
                 "engine": c.get("engine", "tlc-machine-replay"),
-                "level_claimed": {"category": c.get("category", "model_checking"), "text": c["text"], "design_ref": "DESIGN.md section " + c["ref"]},
+                "level_claimed": {"category": c.get("category", "model_checking"), "text": c["text"] + EXTRA.get(pid, ""), "design_ref": "DESIGN.md section " + c["ref"]},
                 "level_note": c.get("note", NOTE),
                 "technique": c["technique"],
             })
